@@ -26,6 +26,18 @@ RUNS = {
     "C17": [
         {"name": "K3-segmentation", "mode": "k3", "budget": (120, 3000), "nontrivial": r"recv\d+=(msg|proto)", "keyfn": "generic"},
     ],
+    "C04": [
+        {"name": "K4-session", "mode": "k4", "budget": (6000, 150000), "nontrivial": r"^rtyp=(?!7 )", "keyfn": "k4"},
+    ],
+    "C05": [
+        {"name": "K4-session-lifecycle", "mode": "k4", "budget": (6000, 150000), "nontrivial": r"close=|^rtyp=(?!7 )", "keyfn": "k4", "monitor": "lifecycle"},
+    ],
+    "C09": [
+        {"name": "K4-session-names", "mode": "k4", "budget": (6000, 150000), "nontrivial": r" c\d+=", "keyfn": "k4", "monitor": "names"},
+    ],
+    "C15": [
+        {"name": "K4-session-faults", "mode": "k4", "budget": (6000, 150000), "nontrivial": r"r:Error=(14|5|2|13|17|20|28|30|11|39|61)\b", "keyfn": "k4", "monitor": "lifecycle"},
+    ],
     "C02": [
         {"name": "K2-framing", "mode": "k2", "budget": (1500, 40000), "nontrivial": r"recv\d+=(msg|proto)", "keyfn": "k2"},
     ],
@@ -34,6 +46,83 @@ RUNS = {
 NOT_YET = {}
 
 PROPS = {
+    "C04": {
+        "level_text": "Proof on the session model: an unbound fid gives EBADF with no backend call, no state change and the tape untouched for every "
+                      "fid-taking handler (generic withFid lemma + 17 instances, safe-name hypothesis where C09's EINVAL comes first); Tclunk leaves its "
+                      "fid unbound on every normal return whatever it reports, stop() unbinds everything; Tauth is ENOSYS and an auth-fid attach EINVAL "
+                      "without touching the backend; 17 request kinds provably never change the fid table, for any oracle tape (errors and panics "
+                      "included), by a frame calculus over the session monad. Open-state / mode refusals (EINVAL, EPERM, EISDIR, EBUSY) and bind-only-"
+                      "on-success are decided by the K4 correspondence (model = executable reference), not yet by theorems.",
+        "level_note": "Trusted: Lean kernel; Session/*.lean is a hand-written transcription of handlers.go / server.go / path_tree.go (sequential semantics, "
+                      "Go defer as finally, recover as EFAULT) tied on every run by K4: random request histories over two connections of one real Server "
+                      "against a scripted, recording, fault-injecting backend whose outcomes are replayed to the model as an oracle tape; reply type, "
+                      "errno, every reply field, reply frame length and every backend call with receiver and all arguments are compared. "
+                      "Close/Renamed order inside one request follows Go map iteration and is compared as a multiset.",
+        "rule": "K4: histories of 20..140 requests (Tversion, attach on fid 0 of each connection, then random T-messages of all handled types and "
+                "occasionally any registered type) over a 4-fid / 4-name alphabet with adversarial names and attach names, fid fields drawn from "
+                "the fids believed bound (80%), backend faults per history: none / 6% errors / 10% errors + 1.5% panics / 25% errors, Close failing "
+                "for handles = 7 mod 11 in a third of the histories; teardown of both connections at the end. Non-trivial: see per-run pattern; "
+                "distinct = distinct request lines (incl. tape).",
+        "assumptions": ["I5: order of refusals is the code's (unsafe name EINVAL before unbound fid EBADF, except Twalk where the fid is looked up first)"],
+        "trusted_base": ["Session/Model.lean, Handlers.lean, Dispatch.lean: hand-written model of the server's handlers"],
+    },
+    "C05": {
+        "level_text": "Partial proof + monitor: on the model, dropping a non-last reference never calls Close, dropping the last one logs exactly one "
+                      "Close and retires the reference, DecRef never panics, stop() unbinds every fid; the whole-history statement (each handle from "
+                      "Attach/Walk/WalkGetAttr/Create closed exactly once, never used after, also at disconnect and under backend errors) is decided on "
+                      "the implementation by the lifecycle monitor of the instrumented backend over K4 histories and compared with the model's own "
+                      "accounting; the invariant RefInv is stated, its preservation proof is not complete.",
+        "level_note": "Trusted: Lean kernel; Session/*.lean is a hand-written transcription of handlers.go / server.go / path_tree.go (sequential semantics, "
+                      "Go defer as finally, recover as EFAULT) tied on every run by K4: random request histories over two connections of one real Server "
+                      "against a scripted, recording, fault-injecting backend whose outcomes are replayed to the model as an oracle tape; reply type, "
+                      "errno, every reply field, reply frame length and every backend call with receiver and all arguments are compared. "
+                      "Close/Renamed order inside one request follows Go map iteration and is compared as a multiset." + " Goroutine leaks and teardown timing are runtime behaviour (observed: Handle must return within 10 s).",
+        "rule": "K4: histories of 20..140 requests (Tversion, attach on fid 0 of each connection, then random T-messages of all handled types and "
+                "occasionally any registered type) over a 4-fid / 4-name alphabet with adversarial names and attach names, fid fields drawn from "
+                "the fids believed bound (80%), backend faults per history: none / 6% errors / 10% errors + 1.5% panics / 25% errors, Close failing "
+                "for handles = 7 mod 11 in a third of the histories; teardown of both connections at the end. Non-trivial: see per-run pattern; "
+                "distinct = distinct request lines (incl. tape).",
+        "assumptions": ["I8: closed-once is counted per hand-over", "histories with injected panics may leak (outside the property); leaks are required to be empty in panic-free histories"],
+        "trusted_base": ["Session/Model.lean decRef / insertFid / deleteFid / stop", "harness backend lifecycle counters"],
+    },
+    "C09": {
+        "level_text": "Proof by construction + theorems: in the session model every path-component argument of a backend call and every name stored in "
+                      "the path tree has type SafeName (bytes + proof that checkSafeName accepted them), so names_confined holds for every request, "
+                      "state and oracle tape; checkSafeName is characterised exactly; unsafe names are refused with EINVAL before any lookup or call "
+                      "for create/mkdir/symlink/mknod/link/unlinkat/renameat/rename, and a walk with an unsafe component returns EINVAL with no call; "
+                      "attach names are split on '/' into slash-free components that go through the same walk.",
+        "level_note": "Trusted: Lean kernel; Session/*.lean is a hand-written transcription of handlers.go / server.go / path_tree.go (sequential semantics, "
+                      "Go defer as finally, recover as EFAULT) tied on every run by K4: random request histories over two connections of one real Server "
+                      "against a scripted, recording, fault-injecting backend whose outcomes are replayed to the model as an oracle tape; reply type, "
+                      "errno, every reply field, reply frame length and every backend call with receiver and all arguments are compared. "
+                      "Close/Renamed order inside one request follows Go map iteration and is compared as a multiset." + " A Go handler that forgets a check cannot agree with the model on an unsafe name: the model answers EINVAL with no call.",
+        "rule": "K4: histories of 20..140 requests (Tversion, attach on fid 0 of each connection, then random T-messages of all handled types and "
+                "occasionally any registered type) over a 4-fid / 4-name alphabet with adversarial names and attach names, fid fields drawn from "
+                "the fids believed bound (80%), backend faults per history: none / 6% errors / 10% errors + 1.5% panics / 25% errors, Close failing "
+                "for handles = 7 mod 11 in a third of the histories; teardown of both connections at the end. Non-trivial: see per-run pattern; "
+                "distinct = distinct request lines (incl. tape)." + " The C09 monitor scans every backend call of the implementation for empty / '.' / '..' / slash-containing components and multi-component walks.",
+        "assumptions": [],
+        "trusted_base": ["Session/Model.lean SafeName discipline", "harness: which argument positions are path components (Symlink: the new name only)"],
+    },
+    "C15": {
+        "level_text": "Proof on the session model for every fault placement (the oracle tape is arbitrary): a panic anywhere is answered EFAULT; for all "
+                      "33 dispatch cases no request changes the fid table of another connection - on normal return, error reply or panic (frame "
+                      "calculus, dispatch_others); requests that do not bind fids leave the whole table as it was under any fault; DecRef never panics. "
+                      "Lock release on every path is a static obligation (Gen/Locks, C16); closing of files obtained during a failed request is "
+                      "decided by the lifecycle monitor on K4 histories with 6-25% injected errors.",
+        "level_note": "Trusted: Lean kernel; Session/*.lean is a hand-written transcription of handlers.go / server.go / path_tree.go (sequential semantics, "
+                      "Go defer as finally, recover as EFAULT) tied on every run by K4: random request histories over two connections of one real Server "
+                      "against a scripted, recording, fault-injecting backend whose outcomes are replayed to the model as an oracle tape; reply type, "
+                      "errno, every reply field, reply frame length and every backend call with receiver and all arguments are compared. "
+                      "Close/Renamed order inside one request follows Go map iteration and is compared as a multiset.",
+        "rule": "K4: histories of 20..140 requests (Tversion, attach on fid 0 of each connection, then random T-messages of all handled types and "
+                "occasionally any registered type) over a 4-fid / 4-name alphabet with adversarial names and attach names, fid fields drawn from "
+                "the fids believed bound (80%), backend faults per history: none / 6% errors / 10% errors + 1.5% panics / 25% errors, Close failing "
+                "for handles = 7 mod 11 in a third of the histories; teardown of both connections at the end. Non-trivial: see per-run pattern; "
+                "distinct = distinct request lines (incl. tape).",
+        "assumptions": ["panics are injected in tape-driven calls only (not in Close / Renamed, whose order is not deterministic)"],
+        "trusted_base": ["Session/Frame.lean, Isolation.lean: frame calculus over the model"],
+    },
     "C17": {
         "level_text": "Proof (generic io.Reader path): reading n bytes through any segmentation into non-empty chunks, EOF attached to the last "
                       "chunk or separate, yields the stream's first n bytes (induction over the read loop); hence recv over a segmented reader has "
@@ -169,7 +258,67 @@ def key_k2(m):
     return "k2:" + re.sub(r"\d+", "", toks[0].split("=")[0])
 
 
-KEYFNS = {"k1": key_k1, "k2": key_k2}
+def key_k4(m):
+    t = re.search(r"typ=(\d+)", m["lhs"])
+    toks = m["impl_only"] + m["model_only"] + ["?"]
+    for x in toks:
+        if x in ("noreply", "handle=HUNG"):
+            return "k4:typ%s:%s" % (t.group(1) if t else "-", x)
+    k = re.sub(r"\d+", "", toks[0].split("=")[0])
+    return "k4:typ%s:%s" % (t.group(1) if t else m["lhs"].split(" ")[0], k)
+
+
+KEYFNS = {"k1": key_k1, "k2": key_k2, "k4": key_k4}
+
+
+def monitor_lifecycle(lines):
+    """C05/C15: every handle closed exactly once, none used after close; no leak in panic-free histories."""
+    probs = []
+    for i, l in enumerate(lines):
+        if not l.startswith("k4end"):
+            if l.startswith("k4stop") and "handle=HUNG" in l:
+                probs.append(("lifecycle:handle-did-not-return", i, l))
+            continue
+        lhs, rhs = l.split(" => ", 1)
+        kv = dict(t.split("=", 1) for t in rhs.split() if "=" in t)
+        panics = int(re.search(r"panics=(\d+)", lhs).group(1)) if "panics=" in lhs else 0
+        if kv.get("dbl"):
+            probs.append(("lifecycle:closed-twice", i, l))
+        if kv.get("uac"):
+            probs.append(("lifecycle:used-after-close", i, l))
+        if kv.get("leaks") and panics == 0:
+            probs.append(("lifecycle:never-closed", i, l))
+    return probs
+
+
+SAFE_POS = {"Walk": "all", "WalkGetAttr": "all", "Create": "all", "Mkdir": "all", "Mknod": "all", "Link": "all",
+            "UnlinkAt": "all", "RenameAt": "all", "Symlink": "last"}
+
+
+def monitor_names(lines):
+    """C09: no empty / '.' / '..' / '/'-containing path component in any backend call of the implementation."""
+    probs = []
+    for i, l in enumerate(lines):
+        if " => " not in l:
+            continue
+        rhs = l.split(" => ", 1)[1]
+        for t in rhs.split():
+            m = re.match(r"c\d+=\d+\.(\w+)\(([^;]*);([^)]*)\)", t)
+            if not m or m.group(1) not in SAFE_POS:
+                continue
+            strs = [x for x in m.group(3).split("|")] if m.group(3) else []
+            if SAFE_POS[m.group(1)] == "last":
+                strs = strs[-1:]
+            for sx in strs:
+                b = bytes.fromhex(sx[1:])
+                if b in (b"", b".", b"..") or b"/" in b:
+                    probs.append(("names:unsafe-component-reached-backend:" + m.group(1), i, l))
+            if m.group(1) in ("Walk", "WalkGetAttr") and len(strs) > 1:
+                probs.append(("names:multi-component-walk", i, l))
+    return probs
+
+
+MONITORS = {"lifecycle": monitor_lifecycle, "names": monitor_names}
 
 
 def execute(run, run_corr, sh, BUILD, REPO):
@@ -185,6 +334,18 @@ def execute(run, run_corr, sh, BUILD, REPO):
             res["distinct"].add(hashlib.sha1(lhs.encode()).hexdigest())
     for l in lines[:1] + lines[len(lines) // 2: len(lines) // 2 + 1]:
         res["samples"].append(l[:600])
+    if run.get("monitor"):
+        seenm = set()
+        res["monitor_failures"] = 0
+        for key, idx, line in MONITORS[run["monitor"]](lines):
+            res["monitor_failures"] += 1
+            if key in seenm:
+                continue
+            seenm.add(key)
+            res["problems"].append({"kind": "monitor", "key": key,
+                                    "what": "property monitor failed on the implementation: %s (mode %s seed %d line %d): %s" % (
+                                        key, run["mode"], run["seed"], idx, line[:400]),
+                                    "rerun": {"mode": run["mode"], "seed": run["seed"], "budget": run["n"], "index": idx}})
     keyfn = KEYFNS.get(run.get("keyfn"), key_generic)
     seen = set()
     for m in mism:
